@@ -60,6 +60,13 @@ def run(ctx):
                     c["nsched"] = 2
                     c["nthreaded"] = 1
                     cases.append(c)
+    # many blocks with partially overlapping labels (merged cohorts)
+    for sd in range(6 if ctx.tier == "quick" else 60):
+        codes, chunks = gen.overlap_layout(sd)
+        vals = [gen.iv((i * 5) % 7 - 3) if i % 5 != 2 else gen.NAN for i in range(len(codes))]
+        for func in ("nansum", "nanlast", "nanargmax"):
+            cases.append({"func": func, "vals": vals, "dtype": "f8", "codes": codes, "label_kind": "int", "chunks": chunks, "method": "cohorts",
+                          "split_every": 2 if sd % 2 else None, "ddof": None, "nsched": 2, "nthreaded": 1})
     # grouped scans: the Blelloch prefix tree under TLC-generated schedules
     for f in ("nancumsum", "ffill", "bfill"):
         for nb in ((5, 8) if ctx.tier == "quick" else (3, 5, 8, 13)):
